@@ -33,8 +33,12 @@ __all__ = ["Cache", "parallelise", "parallelise_keyless"]
 
 def _pickle_name(k: Hashable) -> str:
     # repr, not str: str() maps different keys such as 1 and "1" (or (1, 2) and "(1, 2)") to the
-    # same file, so the second key would silently be answered with the first key's result
-    return f"{k!r}.p"
+    # same file, so the second key would silently be answered with the first key's result.
+    # The name has to be a single path component: a "/" in it (a str key such as "ATP/ADP") would
+    # point into a sub-directory of the cache directory that does not exist, and saving would fail.
+    # Percent-encode it, and "%" itself so that different keys keep different names.
+    name = repr(k).replace("%", "%25").replace("/", "%2F")
+    return f"{name}.p"
 
 
 def _pickle_load(file: Path) -> Any:
